@@ -102,7 +102,7 @@ func (l *Lexer) scanInLine() Token {
 	case ch == '"':
 		return l.scanQuotedCommodity()
 	case ch == '-' || ch == '+':
-		if l.nextIsCurrencySymbol() || l.nextIsLetterCommodity() || l.nextIsDigit() {
+		if l.nextIsCurrencySymbol() || l.nextIsLetterCommodity() || l.nextIsDigit() || l.nextIsQuotedCommodity() {
 			return l.scanSign()
 		}
 		return l.scanText()
@@ -500,11 +500,21 @@ func (l *Lexer) nextIsLetterCommodity() bool {
 	if !l.isLetter(l.input[pos]) {
 		return false
 	}
+	start := pos
 	for pos < len(l.input) && l.isLetter(l.input[pos]) {
 		pos++
 	}
 	if pos >= len(l.input) {
 		return false
+	}
+	if l.input[pos] == ' ' && l.isAllUppercase(l.input[start:pos]) {
+		// "-USD 100": an upper-case commodity word separated from its number by blanks
+		for pos < len(l.input) && l.input[pos] == ' ' {
+			pos++
+		}
+		if pos >= len(l.input) {
+			return false
+		}
 	}
 	ch := l.input[pos]
 	if l.isDigit(ch) {
@@ -512,6 +522,21 @@ func (l *Lexer) nextIsLetterCommodity() bool {
 	}
 	if (ch == '-' || ch == '+') && pos+1 < len(l.input) && l.isDigit(l.input[pos+1]) {
 		return true
+	}
+	return false
+}
+
+// nextIsQuotedCommodity reports whether a sign is followed by a quoted commodity
+// that is closed on the same line, as in -"ACME Inc" 5.
+func (l *Lexer) nextIsQuotedCommodity() bool {
+	pos := l.pos + 1
+	if pos >= len(l.input) || l.input[pos] != '"' {
+		return false
+	}
+	for pos++; pos < len(l.input) && l.input[pos] != '\n'; pos++ {
+		if l.input[pos] == '"' {
+			return true
+		}
 	}
 	return false
 }
